@@ -209,6 +209,17 @@ def el_period(c, start, end, utc, by_duration):
         c.fail("PERIOD:combined-encoder", elem, t, t2)
 
 
+def el_period_text(c, text, want):
+    c.n += 1
+    c.trans += 2
+    c.nt += 1
+    elem = ("period-text", text)
+    for label, fn in (("PERIOD", vPeriod.from_ical), ("combined", vDDDTypes.from_ical)):
+        got = guard(fn, text)
+        if got != ("ok", want):
+            c.fail(f"PERIOD:grammar-text-{label}", elem, want, got)
+
+
 def el_int(c, i):
     c.n += 1
     c.trans += 2
@@ -471,6 +482,17 @@ def run_case(case):
             for utc in (False, True):
                 el_period(c, start, end, utc, False)
                 el_period(c, start, end, utc, True)
+    elif kind == "period-texts":
+        starts = (("19970101T180000", datetime(1997, 1, 1, 18, 0, 0)), ("20240229T000000", datetime(2024, 2, 29)))
+        for st, sv in starts:
+            for sign in ("", "+", "-"):
+                for dtext in ("PT5H30M", "P1D", "P2W", "P1DT1H", "PT0S", "P15DT5H0M20S"):
+                    if sign == "-":
+                        continue  # a negative duration would put the end before the start: not a period
+                    el_period_text(c, f"{st}/{sign}{dtext}", (sv, V.dec_duration(dtext)))
+            for et, ev in (("19970102T070000", datetime(1997, 1, 2, 7)), ("20240301T000000", datetime(2024, 3, 1))):
+                if ev > sv:
+                    el_period_text(c, f"{st}/{et}", (sv, ev))
     elif kind == "ints":
         for i in int_grid():
             el_int(c, i)
@@ -546,6 +568,11 @@ def run_elem(case):
         el_offset(c, a[0])
     elif k == "period":
         el_period(c, datetime.fromisoformat(a[0]), datetime.fromisoformat(a[1]), a[2], a[3])
+    elif k == "period-text":
+        st, rest = a[0].split("/")
+        sv = V.dec_datetime(st)[0]
+        want = (sv, V.dec_duration(rest.lstrip("+")) if "P" in rest else V.dec_datetime(rest)[0])
+        el_period_text(c, a[0], want)
     elif k == "int":
         el_int(c, int(a[0]))
     elif k == "float":
@@ -610,7 +637,7 @@ def run(ctx):
         yield ("ints",)
         for lo in range(0, nfl, 500):
             yield ("floats", lo, lo + 500)
-        for k in ("float-texts", "geo", "binary", "weekday", "freq", "month", "uri", "bool"):
+        for k in ("float-texts", "geo", "binary", "weekday", "freq", "month", "uri", "bool", "period-texts"):
             yield (k,)
 
     ctx.explore("value-domains", gen, run_case)
